@@ -76,10 +76,10 @@ def _so3_to_angle_hf0(x00, x02, x10, x12, x20, x21, x22, zero_eps):
         gamma[ind1] = 0
     if np.any(ind2):
         tmp0 = 1/np.sin(beta[ind2])
-        tmp1 = np.arccos(-x20[ind2]*tmp0) #(0,pi)
+        tmp1 = np.arccos(np.clip(-x20[ind2]*tmp0, -1, 1)) #(0,pi), rounding may give 1+1ulp when gamma is a multiple of pi
         tmp2 = (x21[ind2]*tmp0)<0
         gamma[ind2] = tmp1*np.logical_not(tmp2) + (2*np.pi-tmp1)*tmp2 #(0,2*pi)
-        tmp1 = np.arccos(x02[ind2]*tmp0) #(0,pi)
+        tmp1 = np.arccos(np.clip(x02[ind2]*tmp0, -1, 1)) #(0,pi)
         tmp2 = (x12[ind2]*tmp0)<0
         alpha[ind2] = tmp1*np.logical_not(tmp2) + (2*np.pi-tmp1)*tmp2 #(0,2*pi)
     return alpha,beta,gamma
